@@ -1066,6 +1066,18 @@ Error JitAllocator::release(void* rx) noexcept {
     return make_error(Error::kInvalidArgument);
   }
 
+  // Only the first area of a live allocation can be released - the area must be used and the area before it must either
+  // be unused or be the last area of another allocation. Otherwise it's a pointer that has already been released or a
+  // pointer into the middle of an allocation, and releasing it would free (a part of) somebody else's memory.
+  if (ASMJIT_UNLIKELY(!Support::bit_vector_get_bit(block->_used_bit_vector, area_index))) {
+    return make_error(Error::kInvalidArgument);
+  }
+
+  if (area_index > 0 && Support::bit_vector_get_bit(block->_used_bit_vector, area_index - 1) &&
+                        !Support::bit_vector_get_bit(block->_stop_bit_vector, area_index - 1)) {
+    return make_error(Error::kInvalidArgument);
+  }
+
   uint32_t area_end = uint32_t(Support::bit_vector_index_of(block->_stop_bit_vector, area_index, true)) + 1;
   uint32_t area_size = area_end - area_index;
 
@@ -1125,6 +1137,12 @@ static Error JitAllocatorImpl_shrink(JitAllocatorPrivateImpl* impl, JitAllocator
   uint32_t area_end = uint32_t(Support::bit_vector_index_of(block->_stop_bit_vector, area_start, true)) + 1;
   uint32_t area_prev_size = area_end - area_start;
   uint32_t span_prev_size = area_prev_size * pool->granularity;
+
+  // Must be checked before the size is converted to areas as the conversion truncates to 32 bits.
+  if (ASMJIT_UNLIKELY(new_size > span_prev_size)) {
+    return make_error(Error::kInvalidArgument);
+  }
+
   uint32_t area_shrunk_size = pool->area_size_from_byte_size(new_size);
 
   if (ASMJIT_UNLIKELY(area_shrunk_size > area_prev_size)) {
